@@ -234,7 +234,8 @@ class C03(Prop):
     rule = ('pipelines over 2..4 partitions of 0..10 ints: 1..4 stages out of map / filter / flatMap / sample(with and without '
             'replacement, seeded) / persist() at any position / coalesce / repartition / sortBy / distinct / reduceByKey / '
             'groupByKey / zipWithIndex / glom / union / sampleByKey, followed by 2..3 actions (collect twice, count, take, reduce, '
-            'aggregate, takeSample) so that later actions read what earlier ones cached. (a) SCHEDULES: a deterministic '
+            'aggregate, takeSample) so that later actions read what earlier ones cached; and SAVING jobs (saveAsTextFile of 2..3 '
+            'partitions with 1..3 attempts per task, outcome and files compared with the in-process executor). (a) SCHEDULES: a deterministic '
             'line-granularity scheduler pool (one real thread per task, one running at a time, yields at every source line '
             'inside pysparkling): every task start order, every single pre-emption point x target, and sampled 2- and '
             '3-pre-emption schedules; (b) BACKENDS: ThreadPoolExecutor, multiprocessing.Pool with cloudpickle / dill, '
@@ -343,6 +344,11 @@ class C03(Prop):
                     'preempt': sorted((rng.randint(1, 260), rng.randrange(pipe['n'])) for _ in range(k)), 'job': rng.choice([0, 0, 1])}
         if r < .55:
             return self.gen_model(rng)
+        if r < .62:
+            n = rng.choice([2, 2, 3])
+            return {'kind': 'save', 'n': n, 'data': [rng.randint(0, 9) for _ in range(rng.randint(n, 6))], 'map': rng.choice([None, 'id', 'inc']),
+                    'order': rng.sample(range(n), n), 'retries': rng.choice([1, 1, 2, 3]),
+                    'preempt': sorted([rng.randint(1, 160), rng.randrange(n)] for _ in range(rng.choice([1, 1, 2])))}
         return {'kind': 'backend', 'pipe': self.gen_pipe(rng), 'backend': rng.choice(BACKENDS), 'seed': rng.randint(0, 99)}
 
     def gen_model(self, rng):
@@ -385,6 +391,10 @@ class C03(Prop):
         for order in ([0, 1, 2], [2, 1, 0]):
             out.append({'kind': 'sched', 'pipe': two_level, 'order': order, 'preempt': [], 'job': 0})
             out.append({'kind': 'sched', 'pipe': two_level, 'order': order, 'preempt': [[40, 1], [90, 0]], 'job': 1})
+        for step in range(1, 150 if tier == 'quick' else 400):
+            for first in (0, 1):
+                out.append({'kind': 'save', 'n': 2, 'data': [1, 2, 3, 4], 'map': None, 'order': [first, 1 - first], 'retries': 1,
+                            'preempt': [[step, 1 - first]]})
         twice = {'n': 3, 'data': [3, 9, 1, 7, 5, 2], 'ops': [{'op': 'map', 'f': 'inc'}],
                  'actions': ['reduce', 'reduceMax', 'reduce', 'foldMax', 'fold', 'foldMax']}
         for b in BACKENDS:
@@ -401,13 +411,18 @@ class C03(Prop):
     def nontrivial(self, case):
         if case['kind'] == 'deadstores':
             return False
-        if case['kind'] == 'model':
+        if case['kind'] in ('model', 'save'):
             return len(case['data']) >= 2
         p = case['pipe']
         return len(p['data']) >= 2 and any(o['op'] in ('persist', 'sample') for o in p['ops'])
 
     def shrink(self, case):
         if case['kind'] in ('model', 'deadstores'):
+            return
+        if case['kind'] == 'save':
+            for i in range(len(case['preempt'])):
+                if len(case['preempt']) > 1:
+                    yield dict(case, preempt=case['preempt'][:i] + case['preempt'][i + 1:])
             return
         p = case['pipe']
         for i in range(len(p['ops'])):
@@ -427,6 +442,8 @@ class C03(Prop):
     def run_case(self, case, ctx):
         if case['kind'] == 'model':
             return self.run_model(case, ctx)
+        if case['kind'] == 'save':
+            return self.run_save(case, ctx)
         if case['kind'] == 'deadstores':
             import core
             bad = dead_stores_are_dead(core.REPO)
@@ -500,6 +517,43 @@ class C03(Prop):
         if pyrandom.getstate() != glob_before:
             return Mismatch('%s: the tasks changed the module-global random generator (shared by all threads)' % label, None, None,
                             'C03:shared:random', relation='model-only')
+        return None
+
+    def run_save(self, case, ctx):
+        """a job with side effects: saveAsTextFile of a small dataset under a schedule (tasks create the target directory and
+        write one file each) must end as on the in-process executor: same outcome, same files with the same contents"""
+        import os
+        import shutil
+        import tempfile
+        ctx.note('save:preempt%d' % len(case['preempt']))
+        root = tempfile.mkdtemp(prefix='c03save-', dir=ctx.scratch)
+
+        def run(sc, name):
+            target = os.path.join(root, name)
+            rdd = sc.parallelize(list(case['data']), case['n'])
+            if case.get('map'):
+                rdd = rdd.map(LAMBDAS[case['map']])
+            try:
+                rdd.saveAsTextFile(target)
+                outcome = 'ok'
+            except Exception as e:  # pylint: disable=broad-except
+                outcome = 'raises:' + type(e).__name__
+            files = {}
+            for dp, _, fns in os.walk(target):
+                for fn in fns:
+                    with open(os.path.join(dp, fn), 'rb') as f:
+                        files[os.path.relpath(os.path.join(dp, fn), target)] = f.read().decode('utf8', 'replace')
+            return [outcome, sorted(files.items())]
+        try:
+            want = run(self.ps.Context(max_retries=case['retries']), 'ref')
+            pool = SchedPool(order=case['order'], preempt=[tuple(p) for p in case['preempt']])
+            got = run(self.ps.Context(pool=pool, max_retries=case['retries']), 'sched')
+            ctx.note('switches:%d' % min(pool.switches, 3))
+        finally:
+            shutil.rmtree(root, ignore_errors=True)
+        if got != want:
+            return Mismatch('schedule order=%s preempt=%s: saving on a thread pool ends differently from the in-process executor '
+                            '(outcome, files written)' % (case['order'], case['preempt']), got, want, 'C03:save:sched', relation='spec')
         return None
 
     def run_model(self, case, ctx):
